@@ -79,7 +79,7 @@ func init() {
 
 func genSE(r *rand.Rand, depth int) []any {
 	if depth > 4 || r.Intn(3) == 0 {
-		words := []string{"a", "hello world", "x\ny", " ", "", "two  spaces", "é漢😀", "m[0;1", "\n", "tab    here", "line one\nline two\n"}
+		words := []string{"a", "hello world", "x\ny", " ", "", "two  spaces", "é漢😀", "m[0;1", "\n", "tab    here", "line one\nline two\n", "a\n\u0301b", "e\u0301\n\u0308", "\u0301"}
 		return []any{"t", pick(r, words)}
 	}
 	if r.Intn(3) == 0 {
